@@ -348,8 +348,12 @@ class Ctx:
     def record(self, name, engine, status, key=None, detail='', time_s=0.0, bound='', sample=None):
         self.records.append({'name': name, 'engine': engine, 'status': status, 'key': key or name, 'detail': detail,
                              'time_s': round(time_s, 3), 'bound': bound})
-        if sample is not None and len(self.samples) < 12:
-            self.samples.append(sample)
+        if sample is not None:
+            per = sum(1 for s_ in self.samples if s_.get('_engine') == engine)
+            if per < 6 and len(self.samples) < 14:
+                sample = dict(sample)
+                sample['_engine'] = engine
+                self.samples.append(sample)
 
     # ---- verdict handling
     def classify(self, key, text, reproduce):
